@@ -39,6 +39,9 @@ type Global struct {
 	// NoMethodOff (only without NoMethod): a no-method handler is configured and then switched off again by a later
 	// WithNoMethod(false): options apply in order, so unserved requests end in the no-route handler.
 	NoMethodOff bool `json:"no_method_off,omitempty"`
+	// DefaultSpecials: fox's own 405 and automatic-OPTIONS handlers stay in place (WithNoMethod(true) / WithAutoOptions(true));
+	// they are observed by a middleware scoped to them instead of being replaced.
+	DefaultSpecials bool `json:"default_specials,omitempty"`
 }
 
 // Req is one request.
@@ -49,6 +52,8 @@ type Req struct {
 	// Escaped: Path is the escaped form a server received (URL.RawPath), e.g. "/files/a%2Fb"; URL.Path is its decoded form.
 	// The router routes on the escaped form, so Path stays the routing path either way.
 	Escaped bool `json:"escaped,omitempty"`
+	// Header: request header fields beyond Host ("Name: value").
+	Header []string `json:"header,omitempty"`
 }
 
 // Hit is what a handler observed.
@@ -178,6 +183,26 @@ func GlobalOptions(g Global, sink *Sink) []fox.GlobalOption {
 			sink.Hits = append(sink.Hits, Hit{Kind: "noroute", Pattern: c.Pattern(), Params: Collect(c), Scope: c.Scope(), RouteNil: c.Route() == nil, CloneWithDiff: cloneWithDiff(c)})
 			c.Writer().WriteHeader(http.StatusNotFound)
 		}),
+	}
+	if g.DefaultSpecials {
+		if g.NoMethod {
+			opts = append(opts, fox.WithNoMethod(true))
+		}
+		if g.AutoOptions {
+			opts = append(opts, fox.WithAutoOptions(true))
+		}
+		opts = append(opts, fox.WithMiddlewareFor(fox.NoMethodHandler|fox.OptionsHandler, func(next fox.HandlerFunc) fox.HandlerFunc {
+			return func(c fox.Context) {
+				kind := "nomethod"
+				if c.Scope() == fox.OptionsHandler {
+					kind = "options"
+				}
+				sink.nested(c)
+				sink.Hits = append(sink.Hits, Hit{Kind: kind, Pattern: c.Pattern(), Params: Collect(c), Scope: c.Scope(), RouteNil: c.Route() == nil, CloneWithDiff: cloneWithDiff(c)})
+				next(c)
+			}
+		}))
+		g.NoMethod, g.AutoOptions, g.NoMethodOff = false, false, false
 	}
 	if g.NoMethod {
 		opts = append(opts, fox.WithNoMethodHandler(func(c fox.Context) {
@@ -369,6 +394,11 @@ func NewRequest(q Req) *http.Request {
 		Method: q.Method, URL: u, Proto: "HTTP/1.1", ProtoMajor: 1, ProtoMinor: 1,
 		Header: http.Header{}, Host: q.Host, RemoteAddr: "192.0.2.1:1234", RequestURI: q.Path,
 		Body: http.NoBody,
+	}
+	for _, h := range q.Header {
+		if k, v, ok := strings.Cut(h, ": "); ok {
+			req.Header.Add(k, v)
+		}
 	}
 	return req
 }
